@@ -85,4 +85,3 @@ package peer
 //@ guarded_by internal/peer.RedisPubsubPeers.mut: hash, callbacks
 //@ lockdiscipline internal/peer.RedisPubsubPeers mut props C35 skip: Start
 //@ confine internal/peer.RedisPubsubPeers props C35 init: Start
-
